@@ -1209,17 +1209,20 @@ fn globs(
         return Ok(ignore::overrides::Override::empty());
     }
     let mut builder = ignore::overrides::OverrideBuilder::new(&state.cwd);
-    // Make all globs case insensitive with --glob-case-insensitive.
-    if low.glob_case_insensitive {
-        builder.case_insensitive(true).unwrap();
-    }
-    for glob in low.globs.iter() {
+    // The globs are added in the order in which they were given on the
+    // command line, whichever of the two flags was used, so that "the glob
+    // given later in the command line takes precedence" holds across -g/--glob
+    // and --iglob too. --iglob globs are always case insensitive, -g/--glob
+    // globs only with --glob-case-insensitive. (Setting case insensitivity
+    // only affects globs added subsequently.)
+    let (mut globs, mut iglobs) = (low.globs.iter(), low.iglobs.iter());
+    for &is_iglob in low.glob_order.iter() {
+        let glob = if is_iglob { iglobs.next() } else { globs.next() };
+        let Some(glob) = glob else { continue };
+        builder
+            .case_insensitive(is_iglob || low.glob_case_insensitive)
+            .unwrap();
         builder.add(glob)?;
-    }
-    // This only enables case insensitivity for subsequent globs.
-    builder.case_insensitive(true).unwrap();
-    for glob in low.iglobs.iter() {
-        builder.add(&glob)?;
     }
     Ok(builder.build()?)
 }
